@@ -59,5 +59,5 @@ NATIVE['n_c04_entry_cost'] = dict(
     harness='native/cairo-lang-runner/n_c04_entry_cost.rs',
     props={'C04'},
     bound='token price table exhaustive; entry cost on hand-written functions with 0..=3 pedersen calls',
-    functions=[('crates/cairo-lang-runner/src/lib.rs', None, 'token_gas_cost'), ('crates/cairo-lang-runner/src/lib.rs', 'impl SierraCasmRunner', 'initial_required_gas')],
+    functions=[('crates/cairo-lang-runner/src/lib.rs', None, 'token_gas_cost'), ('crates/cairo-lang-runner/src/lib.rs', 'impl SierraCasmRunner', 'initial_required_gas'), ('crates/cairo-lang-runner/src/lib.rs', None, 'initialize_vm')],
 )
